@@ -17,8 +17,9 @@ FRONT_OF = {'sync-tcp': 'sync', 'aio-tcp': 'aio', 'tw-tcp': 'tw'}
 
 def start(front, framing, layout, flags):
     """-> (server handle, blocks or None)"""
-    if front == 'tw-tcp':
-        return RN.TwistedServer(framing, layout, ignore_missing_slaves=flags.get('ignore_missing_slaves', False)), None
+    if front in ('tw-tcp', 'tw-udp'):
+        return RN.TwistedServer(framing, layout, ignore_missing_slaves=flags.get('ignore_missing_slaves', False),
+                                kind='udp' if front == 'tw-udp' else 'tcp'), None
     ctx, model, blocks = SM.build(layout)
     if front == 'sync-tcp':
         return RN.SyncServer('tcp', framing, ctx, **flags), blocks
@@ -76,6 +77,53 @@ def histories(run, r, uniq, n_per_front):
                 run.violation('loopback:%s/%s' % (front, framing), dict(case, loopback=True),
                               'over real sockets %s wrote %s, the in-process driver (and the model) %s%s' % (front, got.hex()[:120], want.hex()[:120],
                                                                                                        '; final store differs' if got == want else ''))
+
+
+def datagram_histories(run, r, uniq, n_per_front):
+    """C09 over real UDP sockets (sync server thread, Twisted reactor child): one request per datagram; every datagram must be
+    answered with exactly the datagram(s) the in-process driver produced for it"""
+    for front in ('sync-udp', 'tw-udp'):
+        for i in range(n_per_front if front != 'tw-udp' else max(4, n_per_front // 4)):
+            case = SH.gen_case(r, front, 'tcp', uniq, max_per_read=1)
+            if front == 'tw-udp':
+                case['flags']['broadcast_enable'] = False
+            if SH.regions(case):
+                continue
+            ex = SH.execute(case)
+            problems, _ = SH.match('tcp', ex['exp'], ex['out_frames'])
+            if problems or ex['parse_error']:
+                continue                                # judged (and reported) by the in-process part of the check
+            want = [b for b in ex['res'].per_read]      # bytes written in reaction to each datagram
+            repo.reset_globals()
+            try:
+                srv, blocks = start(front, 'tcp', case['layout'], case['flags'] if front != 'tw-udp' else {k: v for k, v in case['flags'].items() if k == 'ignore_missing_slaves'})
+            except Exception as e:  # noqa
+                run.watchdogs += 1
+                run.observed['loopback_start_error'] = repr(e)[:200]
+                continue
+            try:
+                got = RN.udp_exchange(srv.port, ex['reads'], expect=[1 if w else 0 for w in want], wait=2.0)
+                time.sleep(0.02)
+                dump = SM.norm_dump(SM.dump(blocks, case['layout']['zero_mode'])) if blocks else None
+            finally:
+                srv.stop()
+            per = [b''.join(d for j, d in got if j == k) for k in range(len(want))]
+            run.count('loopback_histories:%s' % front)
+            run.count('loopback_datagrams', len(got))
+            ok = per == want and (dump is None or dump == ex['model'].dump())
+            late = (not ok) and any(w and not p for w, p in zip(want, per)) and all((p == w or not p) for w, p in zip(want, per))
+            run.case(h64(('loopback-dgram', front, repr(case))), True,
+                     sample={'kind': 'real UDP sockets', 'front': front, 'requests': len(want), 'answers': len(got),
+                             'verdict': 'identical to the in-process run' if ok else 'differs'}, sample_class=('loopback-dgram', front))
+            if not ok:
+                if late and dump in (None, ex['model'].dump()):
+                    run.watchdogs += 1                  # an answer did not arrive within the wall-clock wait: not a verdict
+                    run.count('loopback_timeouts')
+                    continue
+                k = next((k for k in range(len(want)) if per[k] != want[k]), None)
+                run.violation('loopback-dgram:%s' % front, dict(case, loopback='dgram'),
+                              'over real UDP sockets %s answered datagram %s with %s, the in-process driver (and the model) with %s%s'
+                              % (front, k, per[k].hex()[:80] if k is not None else '-', want[k].hex()[:80] if k is not None else '-', '; final store differs' if k is None else ''))
 
 
 def hostile(run, r, uniq, n_per_front, gen_layout, hostile_stream, split, classes, unjustified_changes, probe_reads):
